@@ -335,6 +335,8 @@ def line_text(l, sp):
             s += glue + "// " + text
         elif sp.comment == "/*":
             s += glue + "/* " + text.replace("*/", "* /") + " */"
+        # blanks at the end of the line, behind the comment
+        s += ["", " ", "", "\t "][(sp.ws + sp.blank_before) % 4]
     return s
 
 
